@@ -122,7 +122,7 @@ func (r *R) modFuncs() []*ssa.Function {
 		if len(f.Blocks) == 0 || f.Synthetic != "" && f.Parent() == nil && !strings.HasPrefix(f.Synthetic, "package initializer") {
 			continue // wrappers and bound-method thunks have no source of their own
 		}
-		if inModule(f) {
+		if inModule(f) && !isNewHelperOrInside(f) {
 			out = append(out, f)
 		}
 	}
@@ -240,11 +240,61 @@ func callArgs(c *ssa.CallCommon) []ssa.Value {
 }
 
 func eachInstr(fn *ssa.Function, f func(ins ssa.Instruction)) {
+	eachInstrDeep(fn, f, map[*ssa.Function]bool{fn: true}, 0)
+}
+
+// eachInstrDeep also visits the instructions of helpers that did not exist in
+// the reference tree and are called (or referenced as values) from fn: code
+// moved into a new helper still belongs to the function it was moved out of.
+func eachInstrDeep(fn *ssa.Function, f func(ins ssa.Instruction), seen map[*ssa.Function]bool, depth int) {
+	var helpers []*ssa.Function
 	for _, b := range fn.Blocks {
 		for _, ins := range b.Instrs {
 			f(ins)
+			if !haveReference || depth > 3 {
+				continue
+			}
+			for _, op := range ins.Operands(nil) {
+				var g *ssa.Function
+				switch v := (*op).(type) {
+				case *ssa.Function:
+					g = v
+				case *ssa.MakeClosure:
+					g, _ = v.Fn.(*ssa.Function)
+				}
+				if g != nil && g.Synthetic != "" {
+					g = boundTarget(g) // bound-method wrapper / thunk: the method itself
+				}
+				if g != nil && !seen[g] && isNewHelper(g) {
+					seen[g] = true
+					helpers = append(helpers, g)
+				}
+			}
 		}
 	}
+	for _, g := range helpers {
+		for _, h := range withClosures(g) {
+			if h == g || !seen[h] {
+				seen[h] = true
+				eachInstrDeep(h, f, seen, depth+1)
+			}
+		}
+	}
+}
+
+// boundTarget: for a synthetic bound-method wrapper or thunk, the declared method it calls.
+func boundTarget(w *ssa.Function) *ssa.Function {
+	var out *ssa.Function
+	for _, b := range w.Blocks {
+		for _, ins := range b.Instrs {
+			if c, ok := ins.(ssa.CallInstruction); ok {
+				if sc := c.Common().StaticCallee(); sc != nil && sc.Synthetic == "" {
+					out = sc
+				}
+			}
+		}
+	}
+	return out
 }
 
 // calls returns the call instructions (call, go, defer) of fn whose resolved
@@ -397,7 +447,7 @@ func guardStrings(b *ssa.BasicBlock) []string {
 		if !g.Pol {
 			s = "!" + s
 		}
-		out = append(out, s)
+		out = append(out, spellCond(s))
 	}
 	return out
 }
